@@ -240,6 +240,7 @@ func (a *An) akeErrState(rule string) {
 		name := a.C.Name(f)
 		ok := true
 		detail := ""
+		kinds := map[string]bool{}
 		pos := a.C.Pos(f.Pos())
 		for _, b := range f.Blocks {
 			ret, isRet := b.Instrs[len(b.Instrs)-1].(*ssa.Return)
@@ -278,13 +279,22 @@ func (a *An) akeErrState(rule string) {
 			pos = a.C.InstrPos(ret)
 			if ex, isEx := ret.Results[0].(*ssa.Extract); isEx {
 				if call, isCall := ex.Tuple.(*ssa.Call); isCall {
+					kinds["delegates:"+a.F.callName(call)] = true
 					detail = "delegates to " + a.F.callName(call) + " on a different state object (" + a.C.Term(call.Call.Args[0]) + "): an error of the delegate returns the delegate's state, not the state this handler was entered in"
 					continue
 				}
 			}
+			kinds["returns:"+a.C.Term(ret.Results[0])] = true
 			detail = "a return that may carry an error returns state " + a.C.Term(ret.Results[0]) + " instead of the receiver"
 		}
-		a.R.Check(ok, rule, name, "error returns keep the state the handler was entered in", pos, detail)
+		if ok {
+			a.R.Ok(rule, name, "error returns keep the state the handler was entered in", pos)
+			continue
+		}
+		// one obligation per way of leaving the state, so that a recorded finding does not cover a different one
+		for _, k := range sortedKeys(kinds) {
+			a.R.Viol(rule, name+"|"+k, "error returns keep the state the handler was entered in", pos, detail)
+		}
 	}
 	a.R.Floor(rule, 16)
 }
